@@ -14,7 +14,7 @@ from __future__ import annotations
 
 import ast
 
-from ..astutil import dotted, src, walk_local, local_assignments, calls, terminal, if_chain
+from ..astutil import dotted, src, walk_local, local_assignments, calls, terminal, if_chain, parent
 from ..report import AnalysisError, Frag
 
 ARITH = {"add": "+", "sub": "-", "mul": "*", "truediv": "/", "pow": "**"}
@@ -41,6 +41,7 @@ def check(prog, rep):
     rep.section(_truncation, prog, rep)
     rep.section(_index_maps, prog, rep)
     rep.section(_identity, prog, rep)
+    rep.section(_memo_and_buffers, prog, rep)
     rep.expect_min("R11.1", 40)
     rep.expect_min("R11.2", 14)
     rep.expect_min("R11.3", 10)
@@ -326,6 +327,43 @@ def _identity(prog, rep):
                                f"decides that two vectors are the same by `{src(n)}`: slice views drop step and sign from their name (x[0:4], x[::-1], x[0:4:3] share one), so a different vector is treated as this one and the expression is rewritten to something else",
                                loc=f"{fi.module.rel}:{n.lineno}", detail="vector-identity-by-name")
     rep.ob("R11.4", "package", True, f"{n_cmp} name comparison(s) between vector containers found in optyx.core", detail="inventory", trivial=True)
+    # a table looked up under a key made of a container's .name (and at most its size): the same decision in memo form
+    n_keys = 0
+    for fi in prog.functions.values():
+        if not fi.module.name.startswith("optyx.core"):
+            continue
+        conts = {dotted(n.value) for n in walk_local(fi.node) if isinstance(n, ast.Attribute) and n.attr in ("_variables", "rows", "cols") and dotted(n.value)}
+        if not conts:
+            continue
+        asg = local_assignments(fi.node)
+        for n in walk_local(fi.node):
+            key = None
+            if isinstance(n, ast.Call) and isinstance(n.func, ast.Attribute) and n.func.attr in ("get", "setdefault", "pop") and n.args:
+                key = n.args[0]
+            elif isinstance(n, ast.Subscript) and not isinstance(n.slice, ast.Slice):
+                key = n.slice
+            elif isinstance(n, ast.Compare) and len(n.ops) == 1 and isinstance(n.ops[0], (ast.In, ast.NotIn)):
+                key = n.left
+            if key is None:
+                continue
+            if isinstance(key, ast.Name) and len(asg.get(key.id, [])) == 1 and isinstance(asg[key.id][0], ast.expr):
+                key = asg[key.id][0]
+            used = {}
+            whole = set()
+            for x in ast.walk(key):
+                if isinstance(x, ast.Attribute) and dotted(x.value) in conts:
+                    used.setdefault(dotted(x.value), set()).add(x.attr)
+                elif isinstance(x, ast.Name) and x.id in conts and not isinstance(parent(x), ast.Attribute):
+                    whole.add(x.id)
+            for b, attrs in used.items():
+                if "name" in attrs and attrs <= {"name", "size", "rows", "cols", "shape"} and b not in whole:
+                    n_keys += 1
+                    rep.ob("R11.4", fi.qual.split(":")[1], False,
+                           f"a table is looked up under `{src(key)[:60]}`: the container `{b}` is identified by its name{' and size' if len(attrs) > 1 else ''}, but views share names "
+                           f"(x[0:3], x[::-1] and x[0:3:1] are all called x[0:3]) while listing their elements in a different order, so one view is served the entry made for another",
+                           loc=f"{fi.module.rel}:{n.lineno}", detail="vector-identity-by-name", robust=True)
+                    break
+    rep.ob("R11.4", "package", True, f"{n_keys} table key(s) made of a container's name found in optyx.core", detail="inventory-keys", trivial=True)
     dot = prog.cls("VectorVariable").methods["dot"]
     for n in walk_local(dot.node):
         if isinstance(n, ast.If) and any(isinstance(r, ast.Return) and isinstance(r.value, ast.Call) and dotted(r.value.func) == "QuadraticForm" for r in ast.walk(n)):
@@ -356,6 +394,129 @@ def _identity(prog, rep):
             rep.ob("R11.4", f"{cname}.{m.name}", not missing, "assigns every slot of the class" if not missing else f"view built without __init__ leaves slot(s) {missing} unset (AttributeError or lost domain later)", loc=m.loc, detail="all-slots")
             creates = [c for c in calls(m.node, local=False) if dotted(c.func) == "Variable"]
             rep.ob("R11.4", f"{cname}.{m.name}", not creates, "shares the existing Variable objects" if not creates else "creates new Variable objects instead of sharing the original ones: the view and the original are different variables with equal names", loc=m.loc, detail="shares-variables")
+
+
+def _memo_and_buffers(prog, rep):
+    """Two positive-identification rules over the containers of the vector / matrix API.
+
+    (a) a view returned by __getitem__ out of a per-object memo must be keyed by the complete index: a key built from
+        some fields of the slice (start, stop) but not all of them hands out the view of a different index.
+    (b) evaluate() of a container returns a fresh array: a buffer kept on the object, refilled in place and returned, makes
+        every earlier result change with the next call.
+    Both rules report only what they recognise; anything else about memoisation is not decided here."""
+    SLICE_FIELDS = ("start", "stop", "step")
+    n_gi = n_ev = 0
+    for ci in prog.classes.values():
+        if not ci.module.name.startswith("optyx.core"):
+            continue
+        gi = ci.methods.get("__getitem__")
+        if gi is not None and len(gi.node.args.args) >= 2:
+            n_gi += 1
+            param = gi.node.args.args[1].arg
+            asg = local_assignments(gi.node)
+
+            def resolve(e, depth=0):
+                if isinstance(e, ast.Name) and e.id != param and depth < 3 and len(asg.get(e.id, [])) == 1 and isinstance(asg[e.id][0], ast.expr):
+                    return resolve(asg[e.id][0], depth + 1)
+                return e
+
+            def memo_lookup(e):
+                """(attr, key-expr) when e reads self.<attr>[K] / self.<attr>.get(K)."""
+                if isinstance(e, ast.Name) and e.id != param and len(asg.get(e.id, [])) > 1:
+                    for v in asg[e.id]:
+                        got = memo_lookup(v) if isinstance(v, ast.expr) and not isinstance(v, ast.Name) else None
+                        if got:
+                            return got
+                    return None
+                e = resolve(e)
+                if isinstance(e, ast.Subscript) and isinstance(e.value, ast.Attribute) and dotted(e.value.value) == "self":
+                    return e.value.attr, e.slice
+                if isinstance(e, ast.Call) and isinstance(e.func, ast.Attribute) and e.func.attr in ("get", "setdefault") and isinstance(e.func.value, ast.Attribute) and dotted(e.func.value.value) == "self" and e.args:
+                    return e.func.value.attr, e.args[0]
+                return None
+
+            stored = {t.value.attr for n in walk_local(gi.node) if isinstance(n, ast.Assign) for t in n.targets
+                      if isinstance(t, ast.Subscript) and isinstance(t.value, ast.Attribute) and dotted(t.value.value) == "self"}
+            for r in walk_local(gi.node):
+                if not isinstance(r, ast.Return) or r.value is None:
+                    continue
+                ml = memo_lookup(r.value)
+                if ml is None or ml[0] not in stored:
+                    continue
+                attr, key = ml
+                # expand locals inside the key one level
+                names = set()
+                fields = set()
+                for x in ast.walk(key):
+                    xs = [x]
+                    if isinstance(x, ast.Name) and x.id != param:
+                        xs = [y for v in asg.get(x.id, []) if isinstance(v, ast.AST) for y in ast.walk(v)]
+                    for y in xs:
+                        if isinstance(y, ast.Attribute) and isinstance(y.value, ast.Name) and y.value.id == param:
+                            fields.add(y.attr)
+                        elif isinstance(y, ast.Name) and y.id == param and not (isinstance(parent(y), ast.Attribute) and parent(y).value is y):
+                            names.add(y.id)
+                if names:
+                    rep.ob("R11.3", f"{ci.name}.__getitem__", True, f"memoised views in self.{attr} are keyed by the whole index `{param}`", loc=gi.loc, detail="memo-key", robust=True)
+                elif fields and not set(SLICE_FIELDS) <= fields and fields <= set(SLICE_FIELDS):
+                    missing = [f for f in SLICE_FIELDS if f not in fields]
+                    rep.ob("R11.3", f"{ci.name}.__getitem__", False,
+                           f"a view is handed out from the memo self.{attr} under the key `{src(resolve(key))[:70]}`, which is built from {param}.{', '.join(sorted(fields))} but not {param}.{', '.join(missing)}: "
+                           f"two slices that differ only in {'/'.join(missing)} (x[0:4] and x[0:4:2], x[:] and x[::-1]) get the same view, so the second one denotes the wrong elements",
+                           loc=f"{gi.module.rel}:{r.lineno}", detail="memo-key", robust=True)
+                elif set(SLICE_FIELDS) <= fields:
+                    rep.ob("R11.3", f"{ci.name}.__getitem__", True, f"memoised views in self.{attr} are keyed by start, stop and step", loc=gi.loc, detail="memo-key", robust=True)
+                else:
+                    rep.undecided(f"{ci.name}.__getitem__ returns a memoised view from self.{attr}; the key `{src(key)[:50]}` is not interpretable")
+        ev = ci.methods.get("evaluate")
+        if ev is not None:
+            n_ev += 1
+            asg = local_assignments(ev.node)
+            # locals that alias an attribute of self: `r = self._buf`, `r = self._buf = ...`
+            alias = {}
+            for n in walk_local(ev.node):
+                if isinstance(n, ast.Assign):
+                    attrs = [t for t in n.targets if isinstance(t, ast.Attribute) and dotted(t.value) == "self"]
+                    nms = [t.id for t in n.targets if isinstance(t, ast.Name)]
+                    if attrs and nms:
+                        for nm in nms:
+                            alias[nm] = attrs[0].attr
+                    if isinstance(n.value, ast.Attribute) and dotted(n.value.value) == "self":
+                        for nm in nms:
+                            alias[nm] = n.value.attr
+                    # self._buf = r   (the local is published afterwards)
+                    if attrs and isinstance(n.value, ast.Name):
+                        alias[n.value.id] = attrs[0].attr
+            if not alias:
+                continue
+            inplace = {}
+            for n in walk_local(ev.node):
+                tg = None
+                if isinstance(n, ast.Assign):
+                    for t in n.targets:
+                        if isinstance(t, ast.Subscript) and isinstance(t.value, ast.Name):
+                            tg = t.value.id
+                elif isinstance(n, ast.AugAssign):
+                    t = n.target
+                    tg = t.id if isinstance(t, ast.Name) else t.value.id if isinstance(t, ast.Subscript) and isinstance(t.value, ast.Name) else None
+                elif isinstance(n, ast.Call):
+                    for kw in n.keywords:
+                        if kw.arg == "out" and isinstance(kw.value, ast.Name):
+                            tg = kw.value.id
+                    if (dotted(n.func) or "").endswith("copyto") and n.args and isinstance(n.args[0], ast.Name):
+                        tg = n.args[0].id
+                    if isinstance(n.func, ast.Attribute) and n.func.attr == "fill" and isinstance(n.func.value, ast.Name):
+                        tg = n.func.value.id
+                if tg in alias:
+                    inplace.setdefault(tg, n)
+            for r in walk_local(ev.node):
+                if isinstance(r, ast.Return) and isinstance(r.value, ast.Name) and r.value.id in alias and r.value.id in inplace:
+                    nm = r.value.id
+                    rep.ob("R11.3", f"{ci.name}.evaluate", False,
+                           f"evaluate() returns `{nm}`, which is the array kept in self.{alias[nm]} and is refilled in place (line {inplace[nm].lineno}) on every call: "
+                           f"the result returned for one assignment of values is overwritten by the next evaluate() of the same expression, so r0 = E.evaluate(v0); E.evaluate(v1) leaves r0 != numpy(v0)",
+                           loc=f"{ev.module.rel}:{r.lineno}", detail="shared-output-buffer", robust=True)
+    rep.ob("R11.3", "package", True, f"{n_gi} __getitem__ and {n_ev} evaluate methods of optyx.core containers inspected for memoised views / shared output buffers", detail="memo-inventory", trivial=True)
 
 
 def _container_like(node, fi):
